@@ -31,6 +31,10 @@ INVOCATION, REGISTERED, UNREGISTERED = 68, 65, 67
 RESULT, INTERRUPT, GOODBYE, ABORT, ERROR = 50, 69, 6, 3, 8
 E = lambda t: 1000 + t  # noqa: E731
 
+# properties whose history-level statements (Props/Histories<pid>.v) are finished
+# and wired in as obligations (files still being written are not)
+HISTORIES = {"C01", "C02", "C03", "C05", "C20"}
+
 SPECS = {
     "C01": dict(profiles=["pubsub"], owned={EVENT, PUBLISHED, SUBSCRIBED, UNSUBSCRIBED, E(16), E(32), E(34)},
                 monitors=set(), sizes=False, rule="events>=2",
@@ -139,7 +143,7 @@ def main(pid, tier, replay_path=None):
     common.info("%s [%.1fs] model runner and harness built" % (pid, t.s()))
     # 2. proof obligations
     extra = ["Router/GenConform.v"]
-    if os.path.exists(os.path.join(common.COQ, "Props", "Histories%s.v" % pid)):
+    if pid in HISTORIES and os.path.exists(os.path.join(common.COQ, "Props", "Histories%s.v" % pid)):
         extra.append("Props/Histories%s.v" % pid)   # the property lifted to whole histories of Realm.run
     pr = common.coq_props(pid, extra_files=extra)
     obligations, discharged = len(pr["obligations"]), len(pr["discharged"])
